@@ -340,6 +340,24 @@ def explore_alignment(spec, acc):
                                 if g1 != w1:
                                     acc.fail(f"alignment feature slice: residues of the annotated row differ from the retained feature residues [{flags}; {strand} strand]", case, {"got": got, "want": want})
                                 else:
+                                    # the slice taken by the feature is an alignment of its own: the feature is found on it
+                                    # again and still denotes the same residues
+                                    try:
+                                        if keep != fcols or any(s1[c] == "-" for c in fcols):
+                                            # the view cuts the feature (what its slice carries is not stated), or the feature
+                                            # is several spans in alignment coordinates (such a slice drops the annotations by design)
+                                            raise LookupError
+                                        nested = list(sl.get_features(biotype="gene", allow_partial=True))
+                                        ngot = [str(x.get_slice().to_dict().get("s1", "")).replace("-", "").replace("?", "") for x in nested]
+                                    except LookupError:
+                                        ngot = None
+                                    except Exception as ex:  # noqa: BLE001
+                                        acc.fail(f"features of the alignment taken by a feature: raised {type(ex).__name__} [{flags}; {strand} strand]", case, {"error": str(ex)[:200]})
+                                        ngot = None
+                                    if ngot is not None:
+                                        acc.outcome(("aln-nested", len(ngot)))
+                                        if ngot != [w1]:
+                                            acc.fail(f"features of the alignment taken by a feature: the feature itself is not found with its residues [{flags}; {strand} strand]", case, {"got": ngot, "want": [w1]})
                                     # projection onto the other row: the columns of the retained feature residues
                                     # (columns where the annotated row has a gap are not part of the feature)
                                     w2 = "".join(rows["s2"][c] for c in keep if s1[c] != "-")
